@@ -20,8 +20,8 @@ L_DRAIN = [
     Call(r"cond_\.data_\.notify_one", "cv_notify_one(&self->cond_, {0})", "+"),
 ] + L_LOCKOPS
 L_RMW = Sub(r"\(\s*counter_\s*([-+])=\s*([^;()]+)\)",
-            lambda m: "atomic_%s_fetch(&self->counter_, %s)" % ({"-": "sub", "+": "add"}[m.group(1)], m.group(2)), 1)
-L_FETCH = Call(r"(?<![\w.>])counter_\.fetch_(sub|add)", "atomic_fetch_{h1}(&self->counter_, {0})", 1)
+            lambda m: "atomic_%s_fetch(&self->counter_, %s)" % ({"-": "sub", "+": "add"}[m.group(1)], m.group(2)), None)
+L_FETCH = Call(r"(?<![\w.>])counter_\.fetch_(sub|add)", "atomic_fetch_{h1}(&self->counter_, {0})", None)
 L_WAIT = Call(r"cond_\.data_\.wait", "cv_wait(&self->cond_, &{0})", None)
 
 # drain loop `while (notify_one(std::move(l))) l = unique_lock(mtx_)`: at the loop head we own the lock, the latch is open,
@@ -36,7 +36,7 @@ __CPROVER_loop_invariant(g_notifies >= 0 && g_notifies <= 2 && (g_notifies == 0 
 UNITS = [
     Unit("latch.count_down", "latch.c", defines=["U_COUNT_DOWN"], enforce="count_down",
          lifts={"body": Lift(LATCH, r"void count_down\(std::ptrdiff_t update\)", rules=[
-             L_RMW, L_LOCK] + L_DRAIN + [L_NOTIFIED_W, L_NOTIFIED_R],
+             L_RMW, L_FETCH, L_LOCK] + L_DRAIN + [L_NOTIFIED_W, L_NOTIFIED_R],
              loops={1: LOOP_DRAIN, "count": 1})},
          funcs=[LATCH + ": pika::latch::count_down"], min_obligations=40),
     Unit("latch.try_wait", "latch.c", defines=["U_TRY_WAIT"], enforce="try_wait",
@@ -48,7 +48,7 @@ UNITS = [
     Unit("latch.arrive_and_wait", "latch.c", defines=["U_ARRIVE_AND_WAIT"], enforce="arrive_and_wait",
          lifts={"body": Lift(LATCH, r"void arrive_and_wait\(std::ptrdiff_t update = 1\)", rules=[
              L_LOCK, L_LOAD, L_WAIT,
-             L_FETCH] + L_DRAIN + [L_NOTIFIED_W, L_NOTIFIED_R],
+             L_RMW, L_FETCH] + L_DRAIN + [L_NOTIFIED_W, L_NOTIFIED_R],
              loops={1: LOOP_DRAIN, "count": 1})},
          funcs=[LATCH + ": pika::latch::arrive_and_wait"], min_obligations=40),
 ]
